@@ -162,14 +162,19 @@ def run_tlc(module, cfg_text, out_path, workers=1, timeout=900, xmx="4g", extra=
 
 def tlaps_check(module, timeout=900):
     """Checks spec/proofs/<module>.tla with the TLA+ proof system; returns obligation counts."""
-    d = os.path.join(SPEC, "proofs")
+    # a private copy of the proof modules: tlapm keeps its cache and fingerprints next to the module, and two checks
+    # (C09, C20) that run at the same time must not share them
+    d = os.path.join(os.environ.get("VERIF_RUN_ROOT") or WORK, "tlaps-%d" % os.getpid())
+    shutil.rmtree(d, ignore_errors=True)
+    shutil.copytree(os.path.join(SPEC, "proofs"), d)
     t = time.time()
     try:
         p = subprocess.run(["tlapm", "--threads", "4", "--cleanfp", module + ".tla"], cwd=d, stdout=subprocess.PIPE, stderr=subprocess.STDOUT,
                            text=True, timeout=timeout)
     except subprocess.TimeoutExpired:
+        shutil.rmtree(d, ignore_errors=True)
         raise ToolError("tlapm timed out on " + module)
-    shutil.rmtree(os.path.join(d, ".tlacache"), ignore_errors=True)
+    shutil.rmtree(d, ignore_errors=True)
     m = re.search(r"All (\d+) obligations proved", p.stdout)
     if m:
         n = int(m.group(1))
